@@ -437,6 +437,21 @@ theorem ring_sph_coo_inverts_sphere (debug : Bool) {n : Nat} (hn : 1 ≤ n) (hn3
   rw [hashPlane_ensures debug n Y hg.1] at hh
   exact (ring_sph_coo_inverts debug hn hn30 hRI hg h dx dy hh).1
 
+/-- items 4 and 5 on the sphere: if `(lon, lat)` projects to `(X, Y)` and the projected point (with `x` brought back to
+    `[0, 8)` as the code does) is a `GoodPoint`, `ring::hash` returns a cell `h < 12 n²` whose closed diamond contains the
+    projected point.  `RingReal4` shows which `(lon, lat)` project to good points. -/
+theorem ring_hash_contains_sphere_partial (debug : Bool) {n : Nat} (hn : 1 ≤ n) (hn30 : n < 2 ^ 30) (hRI : RingIndexExact n)
+    (lon lat X Y : ℝ) (hp : proj lon lat = some (X, Y)) (hg : GoodPoint (ensuresXIsPositive X) Y) :
+    ∃ (h : ℕ) (cx cy : ℝ), Ring.hash debug n lon lat = some h ∧ h < 12 * n * n ∧
+      centerOfProjectedCell (α := ℝ) debug n h = some (cx, cy) ∧
+      (|ensuresXIsPositive X - cx| + |Y - cy| ≤ 1 / n ∨ |ensuresXIsPositive X - 8 - cx| + |Y - cy| ≤ 1 / n) := by
+  obtain ⟨h, dl, dh, cx, cy, hP, hh, -, -, -, -, hc, hcont⟩ := ring_hash_contains_partial debug hn hn30 hRI hg
+  refine ⟨h, cx, cy, ?_, hh, hc, hcont⟩
+  unfold Ring.hash
+  rw [hashWithDlDh_eq, hp]
+  simp only [Option.bind_some]
+  rw [hashPlane_ensures debug n Y hg.1, hP]; rfl
+
 /-! ## finding F3: the north-cap seams
 
 In exact arithmetic the statement of `ring_hash_contains` fails exactly on the slanted edges of the north Collignon
